@@ -21,13 +21,47 @@ structure Acc where
   /-- the held mutexes that are fields of the same struct as `field` (computed by the extractor) -/
   own : List String
   fresh : Bool
+  /-- synchronisation operations (not mutexes) that dominate the access in its function / call-site context -/
+  pre : List String := []
+  /-- synchronisation operations that follow the access (no early exit in between; deferred ones included) -/
+  post : List String := []
+  /-- goroutine roots the access is reachable from (`go1:f` = started by a `go` statement on a still unpublished object) -/
+  roots : List String := []
 deriving Repr, DecidableEq
+
+/-- How a confinement row is justified.
+    `prose`: a human argument only (trusted base; most are backed by an LTS invariant of another slice, see Props.lean).
+    The other three are CHECKED against the regenerated table — the row is accepted for a pair of accesses only if the table
+    shows the synchronisation the argument relies on:
+    * `goroutine r`: both accesses are reachable only from the goroutine root `r` (`go1:f`: exactly one `go x.f()` per object,
+      executed while `x` is still unpublished) — program order on one goroutine;
+    * `hb r need`: either both on the single goroutine `r`, or there is a release/acquire edge in BOTH directions: a release-side
+      operation follows `a` and its matching acquire-side operation dominates `b`, and vice versa (`syncPairs`); every `(fn, op)`
+      of `need` must dominate the accesses of `fn` (e.g. the closure runs under a `sync.OnceFunc`);
+    * `afterForward streamFns`: every access is either made by one of the stream methods Forward's pumps call, or is dominated by
+      the call of `Forward` in its function (Forward returns after `wg.Wait()`: fact `forwardJoins`). -/
+inductive Mech where
+  | prose
+  | goroutine (root : String)
+  | hb (root : String) (need : List (String × String))
+  | afterForward (streamFns : List String)
+deriving Repr
 
 structure Confine where
   field : String
   fns : List String
   why : String
+  mech : Mech := .prose
 deriving Repr
+
+/-- Matching release → acquire operation names (as the extractor prints them) that carry a happens-before edge, each an
+    instance of an ordering lemma of the trace model GB/C18/HB.lean:
+    atomic store → load (`C18_hb_atomic_store_load`), close → receive (`C18_hb_close_recv`). -/
+def syncPairs : List (String × String) := [
+  ("store:reflection.Resolver.notifyResolveNow", "load:reflection.Resolver.notifyResolveNow"),
+  ("close:reflection.Resolver.resolveNow", "recv:reflection.Resolver.resolveNow")]
+
+def syncMatch (r q : String) : Bool := syncPairs.any (fun p => p.1 == r && p.2 == q)
 
 def conflict (a b : Acc) : Bool :=
   a.field == b.field && (a.write || b.write) && !(a.fresh || b.fresh)
@@ -43,58 +77,81 @@ def commonLock (a b : Acc) : Bool := a.own.any (fun l => b.own.contains l)
 def confinement : List Confine := [
   -- construction-time configuration: option closures run inside New…()/NewReflectionRouter before
   -- the configured component exists; afterwards the options are only read
-  ⟨"grpcadapter.AdaptedClientPoolOpts.DefaultOpts", ["grpcadapter.AdaptedClientPool.New", "grpcbridge.WithDialOpts#1"], "construction-time options, read-only afterwards"⟩,
-  ⟨"grpcadapter.AdaptedClientPoolOpts.NewClientFunc", ["grpcadapter.AdaptedClientPool.New", "grpcbridge.WithConnFunc#1"], "construction-time options, read-only afterwards"⟩,
-  ⟨"grpcbridge.routerOptions.common", ["grpcbridge.funcOption.applyRouter"], "construction-time options"⟩,
-  ⟨"reflection.ResolverOpts.Logger", ["grpcbridge.NewReflectionRouter"], "construction-time options"⟩,
-  ⟨"reflection.ResolverOpts.PollInterval", ["grpcbridge.WithReflectionPollInterval#1", "reflection.Resolver.afterInterval"], "construction-time options, read-only afterwards"⟩,
-  ⟨"reflection.ResolverOpts.PollManually", ["grpcbridge.WithDisabledReflectionPolling#1", "reflection.Resolver.afterInterval"], "construction-time options, read-only afterwards"⟩,
+  ⟨"grpcadapter.AdaptedClientPoolOpts.DefaultOpts", ["grpcadapter.AdaptedClientPool.New", "grpcbridge.WithDialOpts#1"], "construction-time options, read-only afterwards", .prose⟩,
+  ⟨"grpcadapter.AdaptedClientPoolOpts.NewClientFunc", ["grpcadapter.AdaptedClientPool.New", "grpcbridge.WithConnFunc#1"], "construction-time options, read-only afterwards", .prose⟩,
+  ⟨"grpcbridge.routerOptions.common", ["grpcbridge.funcOption.applyRouter"], "construction-time options", .prose⟩,
+  ⟨"reflection.ResolverOpts.Logger", ["grpcbridge.NewReflectionRouter"], "construction-time options", .prose⟩,
+  ⟨"reflection.ResolverOpts.PollInterval", ["grpcbridge.WithReflectionPollInterval#1", "reflection.Resolver.afterInterval"], "construction-time options, read-only afterwards", .prose⟩,
+  ⟨"reflection.ResolverOpts.PollManually", ["grpcbridge.WithDisabledReflectionPolling#1", "reflection.Resolver.afterInterval"], "construction-time options, read-only afterwards", .prose⟩,
   -- poller goroutine: exactly one `go r.watch()` per Resolver (Build), these run only below watch()
-  ⟨"reflection.Resolver.lastProtoHash", ["reflection.Resolver.resolveWithMethod"], "poller goroutine only (watch → resolve → resolveWithMethod)"⟩,
-  ⟨"reflection.Resolver.lastServicesHash", ["reflection.Resolver.resolveWithMethod"], "poller goroutine only"⟩,
-  ⟨"reflection.Resolver.methodPriority", ["reflection.Resolver.resolve"], "poller goroutine only"⟩,
+  ⟨"reflection.Resolver.lastProtoHash", ["reflection.Resolver.resolveWithMethod"], "poller goroutine only (watch → resolve → resolveWithMethod)", .goroutine "go1:reflection.Resolver.watch"⟩,
+  ⟨"reflection.Resolver.lastServicesHash", ["reflection.Resolver.resolveWithMethod"], "poller goroutine only", .goroutine "go1:reflection.Resolver.watch"⟩,
+  ⟨"reflection.Resolver.methodPriority", ["reflection.Resolver.resolve"], "poller goroutine only", .goroutine "go1:reflection.Resolver.watch"⟩,
   -- wake-up protocol: the field is written by the poller (or by Build before `go watch`), then published by
   -- the atomic store of notifyResolveNow; the OnceFunc closure reads it after the atomic load and before
   -- close(), which happens-before the poller's receive and hence before the next write (C15 wake-up LTS)
-  ⟨"reflection.Resolver.resolveNow", ["reflection.Resolver.newResolveNow", "reflection.Resolver.newResolveNow#1", "reflection.Resolver.watch"], "atomic publish + once + channel close→receive (C15)"⟩,
+  ⟨"reflection.Resolver.resolveNow", ["reflection.Resolver.newResolveNow", "reflection.Resolver.newResolveNow#1", "reflection.Resolver.watch"], "atomic publish + once + channel close→receive (C15)",
+    .hb "go1:reflection.Resolver.watch" [("reflection.Resolver.newResolveNow#1", "once"), ("reflection.Resolver.newResolveNow#1", "load:reflection.Resolver.notifyResolveNow")]⟩,
   -- transcoding: option closures run inside NewWebBridge; the request transcoder (one per Bind, i.e. per request) and the
   -- JSON decoder (one per Unmarshal call / per request stream) are objects of ONE request, used by its receive side only
   -- (Forward's request pump, or the main goroutine on the unary path: C18_backing_single_owner). The transcoder itself
   -- (StandardTranscoder.mimeMarshalers etc.) is shared by all requests and must stay read-only after construction: any
   -- write to it shows up in the table as an unprotected pair (seeded change C18-m7).
-  ⟨"grpcbridge.options.logger", ["grpcbridge.NewGRPCProxy", "grpcbridge.NewWebBridge", "grpcbridge.NewReflectionRouter", "grpcbridge.WithLogger#1"], "construction-time options, read-only afterwards"⟩,
-  ⟨"grpcbridge.options.forwarder", ["grpcbridge.NewGRPCProxy", "grpcbridge.NewWebBridge", "grpcbridge.WithForwarder#1"], "construction-time options, read-only afterwards"⟩,
-  ⟨"grpcbridge.proxyOptions.common", ["grpcbridge.funcOption.applyProxy"], "construction-time options"⟩,
-  ⟨"grpcbridge.bridgeOptions.common", ["grpcbridge.funcOption.applyBridge"], "construction-time options"⟩,
-  ⟨"grpcbridge.forwarderOptions.common", ["grpcbridge.funcOption.applyForwarder"], "construction-time options"⟩,
-  ⟨"transcoding.StandardTranscoderOpts.DefaultMarshaler", ["grpcbridge.WithDefaultMarshaler#1"], "construction-time options"⟩,
-  ⟨"transcoding.StandardTranscoderOpts.Marshalers", ["grpcbridge.WithMarshalers#1"], "construction-time options"⟩,
-  ⟨"transcoding.standardRequestTranscoder.queryFilter", ["transcoding.standardRequestTranscoder.queryParamFilter"], "per-request object, receive side single owner"⟩,
-  ⟨"transcoding.jsonDecoder.dec", ["transcoding.jsonDecoder.unmarshalList", "transcoding.jsonDecoder.unmarshalList#1", "transcoding.jsonDecoder.unmarshalMap", "transcoding.jsonDecoder.unmarshalMap#1", "transcoding.jsonDecoder.unmarshalMessage", "transcoding.jsonDecoder.unmarshalScalar"], "per-request object, receive side single owner"⟩,
+  ⟨"grpcbridge.options.logger", ["grpcbridge.NewGRPCProxy", "grpcbridge.NewWebBridge", "grpcbridge.NewReflectionRouter", "grpcbridge.WithLogger#1"], "construction-time options, read-only afterwards", .prose⟩,
+  ⟨"grpcbridge.options.forwarder", ["grpcbridge.NewGRPCProxy", "grpcbridge.NewWebBridge", "grpcbridge.WithForwarder#1"], "construction-time options, read-only afterwards", .prose⟩,
+  ⟨"grpcbridge.proxyOptions.common", ["grpcbridge.funcOption.applyProxy"], "construction-time options", .prose⟩,
+  ⟨"grpcbridge.bridgeOptions.common", ["grpcbridge.funcOption.applyBridge"], "construction-time options", .prose⟩,
+  ⟨"grpcbridge.forwarderOptions.common", ["grpcbridge.funcOption.applyForwarder"], "construction-time options", .prose⟩,
+  ⟨"transcoding.StandardTranscoderOpts.DefaultMarshaler", ["grpcbridge.WithDefaultMarshaler#1"], "construction-time options", .prose⟩,
+  ⟨"transcoding.StandardTranscoderOpts.Marshalers", ["grpcbridge.WithMarshalers#1"], "construction-time options", .prose⟩,
+  ⟨"transcoding.standardRequestTranscoder.queryFilter", ["transcoding.standardRequestTranscoder.queryParamFilter"], "per-request object, receive side single owner", .prose⟩,
+  ⟨"transcoding.jsonDecoder.dec", ["transcoding.jsonDecoder.unmarshalList", "transcoding.jsonDecoder.unmarshalList#1", "transcoding.jsonDecoder.unmarshalMap", "transcoding.jsonDecoder.unmarshalMap#1", "transcoding.jsonDecoder.unmarshalMessage", "transcoding.jsonDecoder.unmarshalScalar"], "per-request object, receive side single owner", .prose⟩,
   -- a builder local to buildPatternRoutes, never shared
-  ⟨"routing.patternRouteBuilder.routes", ["routing.patternRouteBuilder.addBinding"], "function-local builder"⟩,
+  ⟨"routing.patternRouteBuilder.routes", ["routing.patternRouteBuilder.addBinding"], "function-local builder", .prose⟩,
   -- gws ReadLoop goroutine (ParallelEnabled = false ⇒ OnMessage calls are sequential)
-  ⟨"webbridge.gRPCWebSocketStream.closed", ["webbridge.gwsGRPCWebHandler.OnMessage", "webbridge.gwsGRPCWebHandler.readMD"], "gws read loop goroutine only"⟩,
-  ⟨"webbridge.gRPCWebSocketStream.receivedMD", ["webbridge.gwsGRPCWebHandler.OnMessage", "webbridge.gwsGRPCWebHandler.readMD"], "gws read loop goroutine only"⟩,
+  ⟨"webbridge.gRPCWebSocketStream.closed", ["webbridge.gwsGRPCWebHandler.OnMessage", "webbridge.gwsGRPCWebHandler.readMD"], "gws read loop goroutine only", .prose⟩,
+  ⟨"webbridge.gRPCWebSocketStream.receivedMD", ["webbridge.gwsGRPCWebHandler.OnMessage", "webbridge.gwsGRPCWebHandler.readMD"], "gws read loop goroutine only", .prose⟩,
   -- send side of a stream: used by the response pump only, one call at a time (Forward LTS single-owner
   -- invariant; httpStream/gwsStream additionally trip the sendActive guard otherwise)
-  ⟨"webbridge.gRPCWebSocketStream.header", ["webbridge.gRPCWebSocketStream.SetHeader", "webbridge.gRPCWebSocketStream.send"], "send side, single owner"⟩,
-  ⟨"webbridge.gRPCWebSocketStream.sentMD", ["webbridge.gRPCWebSocketStream.send"], "send side, single owner"⟩,
-  ⟨"webbridge.httpStream.sent", ["webbridge.httpStream.SetHeader", "webbridge.httpStream.SetTrailer", "webbridge.httpStream.send"], "send side, single owner (sendActive guard)"⟩,
-  ⟨"webbridge.httpStream.read", ["webbridge.httpStream.recv"], "receive side, single owner (recvActive guard)"⟩,
+  ⟨"webbridge.gRPCWebSocketStream.header", ["webbridge.gRPCWebSocketStream.SetHeader", "webbridge.gRPCWebSocketStream.send"], "send side, single owner", .prose⟩,
+  ⟨"webbridge.gRPCWebSocketStream.sentMD", ["webbridge.gRPCWebSocketStream.send"], "send side, single owner", .prose⟩,
+  ⟨"webbridge.httpStream.sent", ["webbridge.httpStream.SetHeader", "webbridge.httpStream.SetTrailer", "webbridge.httpStream.send"], "send side, single owner (sendActive guard)", .prose⟩,
+  ⟨"webbridge.httpStream.read", ["webbridge.httpStream.recv"], "receive side, single owner (recvActive guard)", .prose⟩,
   -- written by the response pump, read by the handler after Forward returned (Forward waits for its pumps: C02 cleanup)
-  ⟨"webbridge.gRPCWebSocketStream.trailer", ["webbridge.gRPCWebSocketStream.SetTrailer", "webbridge.gRPCWebSocketStream.sendTrailer"], "pump, then handler after Forward returned (wg.Wait)"⟩,
-  ⟨"webbridge.gRPCWebStream.trailer", ["webbridge.gRPCWebStream.SetTrailer", "webbridge.GRPCWebBridge.ServeHTTP"], "pump, then handler after Forward returned (wg.Wait)"⟩,
+  ⟨"webbridge.gRPCWebSocketStream.trailer", ["webbridge.gRPCWebSocketStream.SetTrailer", "webbridge.gRPCWebSocketStream.sendTrailer"], "pump, then handler after Forward returned (wg.Wait)", .prose⟩,
+  ⟨"webbridge.gRPCWebStream.trailer", ["webbridge.gRPCWebStream.SetTrailer", "webbridge.GRPCWebBridge.ServeHTTP"], "pump, then handler after Forward returned (wg.Wait)",
+    .afterForward ["webbridge.gRPCWebStream.SetTrailer"]⟩,
   -- the send side (the helper goroutine of withCtx, under httpStream.mu / gRPCWebStream.mu) and then the handler's error
   -- path: since fixes D30 (gRPC-Web) and D21 (transcoded HTTP) the handler calls finish() after Forward returned and BEFORE
   -- writeError — finish() takes the stream's mutex and sets `finished`, so a straggling send is waited for or becomes a
   -- no-op (C10 httpStream LTS: C10_stream_single_writer, C10_no_write_after_return). The mutex belongs to the STREAM, not to
   -- responseWrapper, so the lock table cannot credit it (`own`); the ordering is recorded here instead.
-  ⟨"webbridge.responseWrapper.writtenStatus", ["webbridge.responseWrapper.Write", "webbridge.responseWrapper.WriteHeader", "webbridge.writeError"], "send side, then handler after the stream's finish() fence (C10)"⟩
+  ⟨"webbridge.responseWrapper.writtenStatus", ["webbridge.responseWrapper.Write", "webbridge.responseWrapper.WriteHeader", "webbridge.writeError"], "send side, then handler after the stream's finish() fence (C10)", .prose⟩
 ]
 
-def confined (a b : Acc) : Bool :=
-  confinement.any (fun c => c.field == a.field && c.fns.contains a.fn && c.fns.contains b.fn)
+/-- a release-side operation follows `a` and its matching acquire-side operation dominates `b` -/
+def edgeTo (a b : Acc) : Bool := a.post.any (fun r => b.pre.any (fun q => syncMatch r q))
+
+def needOk (need : List (String × String)) (x : Acc) : Bool := need.all (fun n => n.1 != x.fn || x.pre.contains n.2)
+
+/-- the CHECKED part of a row: does the regenerated table show the synchronisation the row's argument relies on? -/
+def mechOk (m : Mech) (a b : Acc) : Bool :=
+  match m with
+  | .prose => true
+  | .goroutine r => a.roots == [r] && b.roots == [r]
+  | .hb r need => needOk need a && needOk need b && ((a.roots == [r] && b.roots == [r]) || (edgeTo a b && edgeTo b a))
+  | .afterForward fns => (fns.contains a.fn || a.pre.contains "call:Forward") && (fns.contains b.fn || b.pre.contains "call:Forward")
+
+def rowOf (c : Confine) (a b : Acc) : Bool := c.field == a.field && c.fns.contains a.fn && c.fns.contains b.fn
+
+def confined (a b : Acc) : Bool := confinement.any (fun c => rowOf c a b && mechOk c.mech a b)
+
+/-- the pair lies in a row by name, but the table does not show the row's synchronisation (a CHECKED row that fails) -/
+def rowBroken (a b : Acc) : Bool := !confined a b && confinement.any (fun c => rowOf c a b)
+
+def Mech.isChecked : Mech → Bool
+  | .prose => false
+  | _ => true
 
 def protectedPair (a b : Acc) : Bool := commonLock a b || confined a b
 
